@@ -36,6 +36,8 @@ Proof.
   - intros neg space p l' H. inversion H; reflexivity.
   - intros neg items p l' H. inversion H; reflexivity.
   - intros k body p l _ IH l' H. inversion H; subst. apply IH. assumption.
+  - intros p l' H. inversion H; reflexivity.
+  - intros p l' H. inversion H; reflexivity.
   - intros a p l _ IH l' H. inversion H; subst. apply IH. assumption.
   - intros a q lz mn mx p l Hq _ IH l' H. inversion H; subst. same_bounds. apply IH. assumption.
   - intros x p r _ IH l' H. inversion H; subst. apply IH. assumption.
@@ -72,6 +74,54 @@ Proof.
   - match goal with Hx : rd_ord text d off ?l2 |- _ => apply (Hfun d off l Ho) in Hx; subst l2 end.
     match goal with Hx : hd_error l = Some ?e2, Hy : off < ?e2 |- _ => destruct Hl as [->|Hl]; [discriminate|rewrite Hl in Hx; inversion Hx; lia] end.
   - apply IH. assumption.
+Qed.
+
+(* no end lies before the start; none AT the start when the expression is not nullable *)
+Lemma Forall_le_lt m (l : list nat) : Forall (lt m) l -> Forall (le m) l.
+Proof. apply Forall_impl. intros; lia. Qed.
+
+Theorem ord_advances_mut :
+  (forall a p l, ra_ord text a p l -> Forall (le p) l /\ (nn_atom a = true -> Forall (lt p) l)) /\
+  (forall x p l, rl_ord text x p l -> Forall (le p) l /\ (nn_lit x = true -> Forall (lt p) l)) /\
+  (forall x p l, rp_ord text x p l -> Forall (le p) l /\ (nn_pat x = true -> Forall (lt p) l)) /\
+  (forall d p l, rd_ord text d p l -> Forall (le p) l /\ (nn_disj d = true -> Forall (lt p) l)) /\
+  (forall d ps l, rd_each text d ps l -> forall m, (Forall (le m) ps -> Forall (le m) l) /\ (Forall (lt m) ps -> Forall (lt m) l) /\
+                                                   (nn_disj d = true -> Forall (le m) ps -> Forall (lt m) l)) /\
+  (forall a mn mx lz c p l, rq_ord text a mn mx lz c p l -> Forall (le p) l /\ (nn_atom a = true -> c < mn -> Forall (lt p) l)) /\
+  (forall a mn mx lz c ps l, rq_each text a mn mx lz c ps l -> forall m, (Forall (le m) ps -> Forall (le m) l) /\ (Forall (lt m) ps -> Forall (lt m) l)).
+Proof.
+  assert (Hstep : forall f p, Forall (lt p) (step1 text f p)).
+  { intros f p. unfold step1. destruct (nth_error text p) as [b|]; [|constructor]. destruct (f b); repeat constructor. lia. }
+  apply ord_mutind.
+  - intros c p. split; [apply Forall_le_lt|intros _]; apply Hstep.
+  - intros c p. split; [apply Forall_le_lt|intros _]; apply Hstep.
+  - intros p. split; [apply Forall_le_lt|intros _]; apply Hstep.
+  - intros neg space p. split; [apply Forall_le_lt|intros _]; apply Hstep.
+  - intros neg items p. split; [apply Forall_le_lt|intros _]; apply Hstep.
+  - intros k body p l _ IH. exact IH.
+  - intros p. split; [destruct (at_bol text p); repeat constructor|discriminate].
+  - intros p. split; [destruct (at_eol text p); repeat constructor|discriminate].
+  - intros a p l _ IH. exact IH.
+  - intros a q lz mn mx p l Hq _ [IH1 IH2]. split; [exact IH1|]. cbn [nn_lit]. rewrite Hq. intros H. apply andb_prop in H. destruct H as [Ha Hm].
+    apply IH2; [exact Ha|apply Nat.ltb_lt; exact Hm].
+  - intros x p r _ IH. exact IH.
+  - intros x r p la lb _ [IHa1 IHa2] _ [IHb1 IHb2]. split; [apply Forall_app; auto|]. cbn [nn_pat]. intros H. apply andb_prop in H. destruct H. apply Forall_app; auto.
+  - intros p. split; [repeat constructor|discriminate].
+  - intros x d p la lb _ [IHa1 IHa2] _ IHe. destruct (IHe p) as (E1 & E2 & E3). split; [auto|]. cbn [nn_disj]. intros H. apply Bool.orb_true_iff in H. destruct H as [H|H]; auto.
+  - intros d m. repeat split; intros; constructor.
+  - intros d p ps l1 l2 _ [IH1 IH2] _ IHe m. destruct (IHe m) as (E1 & E2 & E3). repeat split.
+    + intros H. inversion H; subst. apply Forall_app. split; [eapply Forall_impl; [|exact IH1]; intros; cbn in *; lia|auto].
+    + intros H. inversion H; subst. apply Forall_app. split; [eapply Forall_impl; [|exact IH1]; intros; cbn in *; lia|auto].
+    + intros Hn H. inversion H; subst. apply Forall_app. split; [eapply Forall_impl; [|exact (IH2 Hn)]; intros; cbn in *; lia|auto].
+  - (* rq_must *)
+    intros a mn mx lz c p la l Hc _ [IHa1 IHa2] _ IHe. destruct (IHe p) as [E1 E2]. split; [auto|]. intros Hn _. auto.
+  - intros a mn mx c p la l Hc Hw _ [IHa1 IHa2] _ IHe. destruct (IHe p) as [E1 E2]. split; [apply Forall_app; split; [auto|repeat constructor]|intros _ ?; lia].
+  - intros a mn mx c p la l Hc Hw _ [IHa1 IHa2] _ IHe. destruct (IHe p) as [E1 E2]. split; [constructor; auto|intros _ ?; lia].
+  - intros a mn mx lz c p Hc Hw. split; [repeat constructor|intros _ ?; lia].
+  - intros a mn mx lz c m. split; intros; constructor.
+  - intros a mn mx lz c p ps l1 l2 _ [IH1 IH2] _ IHe m. destruct (IHe m) as [E1 E2]. split.
+    + intros H. inversion H; subst. apply Forall_app. split; [eapply Forall_impl; [|exact IH1]; intros; cbn in *; lia|auto].
+    + intros H. inversion H; subst. apply Forall_app. split; [eapply Forall_impl; [|exact IH1]; intros; cbn in *; lia|auto].
 Qed.
 
 End Fun.
